@@ -199,6 +199,18 @@ CHECKS["C05"] = (
     "DESIGN.md 6 (C05)",
 )
 
+CHECKS["C16"] = (
+    "model_checking",
+    "bounded-exhaustive enumeration of pointer widths x endianness x readers x target types x positions x EVERY address of the buffer x contents, with a fixed operation sequence (dereference twice, attribute access, arithmetic, dump, read on) against the reference decode at the absolute offset",
+    "11 target types (scalars, 24-bit, static and dynamic structs, C strings, wchar, enum, pointer-to-pointer, void, 64-bit) in 6 positions (only "
+    "field, between fields, array of pointers, nested struct, several differently typed pointers in one block, member of a union) x pointer widths "
+    "8/16/32/64 x both endiannesses x both readers x 2 buffer contents x every address 0..len+1: field width, integer value, dereference = model "
+    "decode at that absolute offset, NullPointerDereference for null/stream-less pointers, error instead of fabricated data past the end, "
+    "stream position untouched by every (also failing) dereference, repeated access stable, p+1/p-1/p+2 keep type and stream, dumps writes "
+    "the address back; pointer-width switch histories (12 ordered pairs).",
+    "DESIGN.md 6 (C16)",
+)
+
 NOT_APPLICABLE = {}
 
 
